@@ -68,7 +68,7 @@ func runProperty(pc *PropCfg, repo, verif, tier string, update bool) *propResult
 	e.trackAlloc = pc.TrackAlloc
 	dir, _ := os.MkdirTemp("", "govc.")
 	defer os.RemoveAll(dir)
-	cfg := &solveCfg{tier: tier, dir: dir, quickT: 5, slowT: 20, workers: 16}
+	cfg := &solveCfg{tier: tier, dir: dir, quickT: 10, slowT: 40, workers: 14}
 	if tier == "thorough" {
 		cfg.slowT = 60
 	}
@@ -258,6 +258,21 @@ func runProperty(pc *PropCfg, repo, verif, tier string, update bool) *propResult
 		os.WriteFile(expPath, []byte(strings.Join(keep, "\n")+"\n"), 0o644)
 		sort.Strings(r.deadSites)
 		os.WriteFile(deadPath, []byte(strings.Join(r.deadSites, "\n")+"\n"), 0o644)
+	}
+	if os.Getenv("GOVC_TIMING") != "" {
+		type ts struct {
+			n string
+			s float64
+			r string
+		}
+		var all []ts
+		for _, j := range jobs {
+			all = append(all, ts{j.o.Name, j.o.Secs, j.o.Result + "/" + j.o.Solver})
+		}
+		sort.Slice(all, func(i, k int) bool { return all[i].s > all[k].s })
+		for i := 0; i < len(all) && i < 25; i++ {
+			fmt.Fprintf(os.Stderr, "TIMING %6.1fs %-22s %s\n", all[i].s, all[i].r, all[i].n)
+		}
 	}
 	for k := range e.trustedUsed {
 		r.trusted[k] = true
